@@ -12,14 +12,16 @@
 (*   [k |-> "ts", tags] / [k |-> "tu", tags]: taggedstruct / taggedunion,  *)
 (*       tags = Seq([tag, t, block, repeat])      [k |-> "none"]           *)
 (* The document (tokens of the IF_DATA content up to and including its     *)
-(* /end IF_DATA) is the variable Doc of Parser.tla; Specs is the list of   *)
-(* definitions tried in order (built-in specification first, then the      *)
-(* A2ML block of the file).                                                *)
+(* /end IF_DATA, or a whole file) is the variable Doc of ParserCore.tla;    *)
+(* Specs is the list of definitions [t, infile] tried in order (built-in   *)
+(* specification first, then the A2ML block of the file; the latter is in  *)
+(* force once the parser has passed the A2ML block: field a2ml of the      *)
+(* parser state).                                                          *)
 (*                                                                         *)
 (* Values: [k, ...] trees whose leaves are token texts (which token lands  *)
 (* where is decided here; number notation is compared by the driver).      *)
 (***************************************************************************)
-EXTENDS Parser
+EXTENDS ParserCore
 
 VARIABLE Specs
 
@@ -254,29 +256,32 @@ TypeEq(a, b) ==
 (***************************************************************************)
 (* parse_ifdata: definitions in order, then the fallback                   *)
 (***************************************************************************)
-RECURSIVE TrySpecs(_, _)
-TrySpecs(S, i) ==
-    IF i > Len(Specs) THEN [found |-> FALSE, S |-> S]
-    ELSE LET r == PItem(Specs[i], S) IN
+InForce(S) == SelectSeq(Specs, LAMBDA d : ~d.infile \/ S.a2ml)
+RECURSIVE TrySpecs(_, _, _)
+TrySpecs(S, defs, i) ==
+    IF i > Len(defs) THEN [found |-> FALSE, S |-> S]
+    ELSE LET r == PItem(defs[i].t, S) IN
          \* (a comment behind the last item does not belong to the content)
          IF r.ok /\ SkipComments(r.S).pos <= NTok /\ Tok(SkipComments(r.S).pos).t = "end"
          THEN [found |-> TRUE, S |-> SkipComments(r.S), v |-> MakeBlock(r.v), which |-> i]
-         ELSE TrySpecs([r.S EXCEPT !.pos = S.pos], i + 1)
+         ELSE TrySpecs([r.S EXCEPT !.pos = S.pos], defs, i + 1)
 
-\* the result for the IF_DATA content in Doc: [ok, valid, v, diags] or [ok |-> FALSE, e]
-RunIfData ==
-    LET S0 == [pos |-> 1, last |-> 0, diags |-> <<>>] IN
-    IF NTok >= 1 /\ Tok(1).t # "end"
-    THEN LET t == TrySpecs(S0, 1) IN
+\* the content of an IF_DATA block behind its tag, at cursor S, up to and including /end IF_DATA:
+\* [ok, S, valid, v] or the error
+IfDataAt(S0) ==
+    IF S0.pos <= NTok /\ Tok(S0.pos).t # "end"
+    THEN LET t == TrySpecs(S0, InForce(S0), 1) IN
          IF t.found THEN LET c == CloseBlock(t.S, "IF_DATA") IN
-                         IF c.ok THEN [ok |-> TRUE, valid |-> TRUE, v |-> t.v, diags |-> c.S.diags, which |-> t.which]
-                         ELSE [ok |-> FALSE, e |-> c.e]
+                         IF c.ok THEN [ok |-> TRUE, S |-> c.S, valid |-> TRUE, v |-> t.v] ELSE c
          ELSE LET u == PUnknownStart(t.S) IN
-              IF ~u.ok THEN [ok |-> FALSE, e |-> u.e]
+              IF ~u.ok THEN u
               ELSE LET c == CloseBlock(u.S, "IF_DATA") IN
-                   IF c.ok THEN [ok |-> TRUE, valid |-> FALSE, v |-> u.v, diags |-> c.S.diags, which |-> 0]
-                   ELSE [ok |-> FALSE, e |-> c.e]
+                   IF c.ok THEN [ok |-> TRUE, S |-> c.S, valid |-> FALSE, v |-> u.v] ELSE c
     ELSE LET c == CloseBlock(S0, "IF_DATA") IN
-         IF c.ok THEN [ok |-> TRUE, valid |-> FALSE, v |-> [k |-> "absent"], diags |-> c.S.diags, which |-> 0]
-         ELSE [ok |-> FALSE, e |-> c.e]
+         IF c.ok THEN [ok |-> TRUE, S |-> c.S, valid |-> FALSE, v |-> [k |-> "absent"]] ELSE c
+
+\* the result for a Doc that is the content of one IF_DATA block (all definitions in force)
+RunIfData ==
+    LET r == IfDataAt([pos |-> 1, last |-> 0, diags |-> <<>>, a2ml |-> TRUE]) IN
+    IF r.ok THEN [ok |-> TRUE, valid |-> r.valid, v |-> r.v, diags |-> r.S.diags] ELSE [ok |-> FALSE, e |-> r.e]
 =============================================================================
